@@ -427,3 +427,107 @@ Proof.
   - destruct (slot_frame_other c (OGetUser name)) as [k [H _]]; [discriminate|exact H].
   - reflexivity.
 Qed.
+
+Theorem run_length ops : forall c, length (slots (snd (run c ops))) = length (slots c).
+Proof.
+  induction ops as [|o r IH]; intros c; [reflexivity|]. cbn [run].
+  pose proof (step_length c o) as H1. destruct (step c o) as [x c1]. cbn [snd] in H1.
+  specialize (IH c1). destruct (run c1 r) as [xs c2]. cbn [snd] in *. congruence.
+Qed.
+
+(* ------------------------------------------------------------------ end to end: the current password, in any letter case of the id *)
+
+Lemma find_idx_set_new {A} (f : A -> bool) v : forall l k, find_idx f l = None -> (k < length l)%nat -> f v = true ->
+  find_idx f (set_nth k v l) = Some k.
+Proof.
+  induction l as [|a l IH]; intros k Hn Hk Hv; cbn in *; [lia|].
+  destruct (f a) eqn:Ea; [discriminate|]. destruct (find_idx f l) eqn:El; [discriminate|].
+  destruct k as [|k]; cbn; [rewrite Hv; reflexivity|]. rewrite Ea. rewrite (IH k eq_refl); [reflexivity|lia|exact Hv].
+Qed.
+
+Lemma existsb_ext' {A} (f g : A -> bool) (l : list A) : (forall a, f a = g a) -> existsb f l = existsb g l.
+Proof. intros H. induction l as [|a l IH]; [reflexivity|]. cbn. rewrite H, IH. reflexivity. Qed.
+
+Lemma nth_set_same {A} (v d : A) : forall l k, (k < length l)%nat -> nth k (set_nth k v l) d = v.
+Proof. induction l as [|a l IH]; intros [|k] H; cbn in *; try lia; [reflexivity|]. apply IH. lia. Qed.
+
+Theorem register_then_login c name pw email h name' pw' :
+  gen pw = Ok h -> acceptable c name && negb (taken c name) && room c = true ->
+  id_valid name' = true -> key (cid name') = key (cid name) ->
+  let c' := snd (register c name pw email) in
+  (fst (login c' name' pw') = ROk (cid name) <-> hd 0 pw <> 0 /\ kb pw = kb pw') /\
+  (fst (login c' name' pw') = ROk (cid name) \/ fst (login c' name' pw') = RErr E_USERID).
+Proof.
+  intros Hg Hacc Hv' Hkey. cbv zeta.
+  pose proof (register_exact c name pw email h Hg) as R. cbv zeta in R. rewrite Hacc in R.
+  destruct R as (k & Hk & _ & Hs).
+  apply andb_true_iff in Hacc. destruct Hacc as [Hacc _]. apply andb_true_iff in Hacc. destruct Hacc as [Hacc Hnt].
+  unfold acceptable in Hacc.
+  apply andb_true_iff in Hacc. destruct Hacc as [Hacc Hres].
+  apply andb_true_iff in Hacc. destruct Hacc as [Hacc H0].
+  apply andb_true_iff in Hacc. destruct Hacc as [Hacc Hnew].
+  pose proof (valid_nonempty _ Hacc) as Hne. pose proof (valid_nonempty _ Hv') as Hne'.
+  apply negb_true_iff in Hnt. apply (lookup_taken c name Hne) in Hnt.
+  pose proof (lookup_after_clean_none c _ Hne Hnt) as Hl1.
+  pose proof Hk as Hk2. apply find_idx_some in Hk2. destruct Hk2 as (a0 & Hk0 & _ & _).
+  assert (Hlt : (k < length (slots (after_clean c)))%nat) by (apply nth_error_Some; congruence).
+  set (a' := mkAcct (cid name) h (cstr_field (Z.to_nat ptttype.EMAILSZ) email) false false) in *.
+  assert (Hl : lookup (slots (snd (register c name pw email))) (cid name') = Some k).
+  { rewrite Hs. unfold lookup in *. destruct (is_empty (cid name')) eqn:E1; [apply empty_spec in E1; contradiction|].
+    destruct (is_empty (cid name)) eqn:E2; [apply empty_spec in E2; contradiction|].
+    apply find_idx_set_new; [|exact Hlt|apply ci_key; cbn; symmetry; exact Hkey].
+    apply find_idx_none. apply find_idx_none in Hl1.
+    rewrite (existsb_ext' _ (fun a => ci_eqb (a_id a) (cid name))); [exact Hl1|]. intros a. cbn beta.
+    destruct (ci_eqb (a_id a) (cid name')) eqn:E3.
+    - symmetry. apply ci_key. apply ci_key in E3. congruence.
+    - destruct (ci_eqb (a_id a) (cid name)) eqn:E4; [|reflexivity]. apply ci_key in E4.
+      assert (ci_eqb (a_id a) (cid name') = true) by (apply ci_key; congruence). congruence. }
+  assert (Hng : eqbl (cid name) ptttype.STR_GUEST = false).
+  { destruct (eqbl (cid name) ptttype.STR_GUEST) eqn:E; [|reflexivity]. apply Proofs.C15.eqbl_spec in E.
+    apply negb_true_iff in H0. rewrite E in H0. vm_compute in H0. discriminate. }
+  assert (Hvalid : id_valid (cid name) = true).
+  { unfold id_valid in *. unfold cid, cstr_field in *.
+    assert (Hidem : cprefix (firstn USER_ID_SZ (cprefix (firstn USER_ID_SZ name))) = cprefix (firstn USER_ID_SZ name)).
+    { assert (Hlen : (length (cprefix (firstn USER_ID_SZ name)) <= Z.to_nat ptttype.IDLEN)%nat).
+      { apply andb_true_iff in Hacc. destruct Hacc as [Hacc _]. apply andb_true_iff in Hacc. destruct Hacc as [Hacc _].
+        apply andb_true_iff in Hacc. destruct Hacc as [_ Hacc]. apply Nat.leb_le in Hacc. exact Hacc. }
+      rewrite firstn_all2 by (unfold USER_ID_SZ in *; lia).
+      generalize (firstn USER_ID_SZ name). intros l. induction l as [|x l IH]; [reflexivity|]. cbn.
+      destruct (x =? 0) eqn:Ex; [reflexivity|]. cbn. rewrite Ex. f_equal. exact IH. }
+    rewrite Hidem. exact Hacc. }
+  pose proof (login_exact (snd (register c name pw email)) name' pw') as L. cbv zeta in L. rewrite Hl in L.
+  rewrite Hs in L. rewrite (nth_set_same _ _ _ _ Hlt) in L. rewrite Hv' in L. cbn [andb a_id a_pw] in L.
+  unfold a' in L at 1 2. cbn [a_id a_pw] in L. rewrite Hng in L. cbn [orb] in L.
+  assert (Hshown : shown_id a' = cid name) by (unfold shown_id, a'; cbn [a_id]; rewrite Hvalid; reflexivity).
+  destruct (verify h pw') eqn:Ever.
+  - destruct L as [L _]. rewrite Hshown in L. split; [|left; exact L].
+    split; [intros _; apply (verify_gen pw h pw' Hg); exact Ever|intros _; exact L].
+  - destruct L as [L _]. split; [|right; exact L]. split.
+    + intros E. rewrite L in E. discriminate.
+    + intros Hq. apply (verify_gen pw h pw' Hg) in Hq. congruence.
+Qed.
+
+(* ------------------------------------------------------------------ non-vacuity *)
+Definition s_ (l : list Z) := l.
+Definition ex_c : cst :=
+  mkC [mkAcct [83;89;83;79;80] (Some (kb [49;50;51])) [] true false;          (* SYSOP, old: uid 1 is never reclaimed *)
+       mkAcct [111;108;100;49] (Some (kb [112])) [] true false;               (* old1: expired *)
+       mkAcct [103;117;101;115;116] None [] true false]                       (* guest *)
+      [[116;101;115;116;48]] false.
+Example ex_wf : WF ex_c.
+Proof.
+  intros i j a b Hi Hj Hne Hk.
+  assert (Hi3 : (i < length (slots ex_c))%nat) by (apply nth_error_Some; congruence).
+  assert (Hj3 : (j < length (slots ex_c))%nat) by (apply nth_error_Some; congruence).
+  cbn in Hi3, Hj3.
+  destruct i as [|[|[|i]]]; try lia; destruct j as [|[|[|j]]]; try lia; cbn in Hi, Hj;
+    inversion Hi; inversion Hj; subst; try reflexivity; try discriminate.
+Qed.
+(* a full table: "Alice" is registered into the slot reclaimed from old1; "ALICE" is then taken; login needs the password *)
+Example ex_history :
+  fst (run ex_c [ORegister [65;108;105;99;101] [112;119] [97]; ORegister [65;76;73;67;69] [120] [];
+                 OLogin [97;108;105;99;101] [112;119]; OLogin [97;108;105;99;101] [112;120]; OLogin [71;85;69;83;84] [];
+                 OChangePw [97;108;105;99;101] [120] [121]; OChangePw [97;108;105;99;101] [112;119] [121]; OCheckPw [65;108;105;99;101] [121]])
+  = [ROk [65;108;105;99;101]; RErr E_EXISTS; ROk [65;108;105;99;101]; RErr E_USERID; ROk [103;117;101;115;116];
+     RErr E_USERID; ROk []; ROk []].
+Proof. vm_compute. reflexivity. Qed.
